@@ -28,6 +28,9 @@ DEFECTS = {
     'pp_error': ('top', '#error planted', 'preprocessor'),
     'pp_bad_directive': ('top', '#pragma planted', 'preprocessor'),
     'pp_unterminated': ('top', 'char *zz = "abc;', 'preprocessor'),
+    'pp_if_undefined': ('top', '#if NOT_DEFINED_NAME', 'preprocessor'),
+    'pp_if_badnum': ('top', '#if 08', 'preprocessor'),
+    'pp_if_garbage': ('top', '#if 1 1', 'preprocessor'),
     'syn_stray': ('top', 'char q1 q2;', 'syntax'),
     'syn_paren': ('body', 'X = (1;', 'syntax'),
     'sem_unknown': ('body', 'nothere = 1;', 'semantic'),
